@@ -78,7 +78,7 @@ class Survey:
     def value(self, o):
         """observed value in m / gon computed from the truth; noise is part of the physical survey"""
         t, a, b = o["t"], o["fr"], o["to"]
-        nz = self.noise_of(o)
+        nz = self.noise_of(o) + o.get("blunder", 0.0)        # blunder in the units of the noise: mm or cc
         if t == "direction":
             return self.sense(self.bearing(a, b) - self.orient[a] + nz / 1e4)
         if t == "azimuth":
@@ -406,6 +406,22 @@ def apply_edit(sv, e):
         s.obs.append(dict(t="distance", fr=a["id"], to="X", to2="", k=len(s.obs), fdh=0.0, tdh=0.0, swap=False, passive=False))
         if e["s"] == 2 and s.dim == 3:
             s.obs.append(dict(t="dh", fr=a["id"], to="X", to2="", k=len(s.obs), fdh=0.0, tdh=0.0, swap=False, passive=False))
+    elif k == "Blunder":
+        s.params["tol-abs"] = float(e["tol"])
+        o = s.obs[e["obs"] - 1]
+        m = e["tol"] * e["pct"] / 100.0                       # positional misclosure in mm
+        if o["t"] in ("distance", "s-distance", "dh"):
+            o["blunder"] = m
+        else:
+            ea, na, ua = s.enu(o["fr"])
+            eb, nb, ub = s.enu(o["to"])
+            d = math.hypot(eb - ea, nb - na)
+            if o["t"] == "z-angle":
+                d = math.sqrt(d * d + (ub - ua) ** 2)
+            o["blunder"] = m / (d * 1000.0) / G2R * 1e4          # cc
+    elif k == "DeleteObs":
+        s.params["tol-abs"] = float(e["tol"])
+        del s.obs[e["obs"] - 1]
     elif k == "AddConsistentObs":
         have = set((o["t"], o["fr"], o["to"], o["to2"]) for o in s.obs)
         extra = [o for o in s.allopt if (o["t"], o["from"], o["to"], o["to2"]) not in have][:e["s"]]
